@@ -234,3 +234,77 @@ func VH_C16_ParallelCommit() {
 	}
 	vhReach("parallel-done")
 }
+
+// Parallel BatchPreload (>= 11 identifiers): on one canonical schedule the
+// happens-before detector still sees every heap access of workers and caller,
+// so unsynchronised sharing is a violation; the result (cache content, view,
+// error on a failing read) equals the sequential path.
+//
+//vh:prop C16 C15
+//vh:stubs codec
+//vh:sched first
+//vh:param preload 11 12
+func VH_C16_ParallelPreload() {
+	n := vhParam("preload", 11)
+	base := newVBase()
+	st := vhNewPersistent(base)
+	var ids []SlabID
+	vers := make([]uint64, n)
+	missing := vhChoose("missing", n+1) // one identifier may be absent from the ledger
+	for i := 0; i < n; i++ {
+		id := vhSlabID(1, byte(i+1))
+		ids = append(ids, id)
+		if i == missing {
+			continue
+		}
+		vers[i] = vhRange("ver", 1, 200)
+		base.regs[id] = vhRegister(id, vers[i])
+	}
+	// a pending change on one identifier must not be disturbed by the preload
+	pend := vhChoose("pending", n)
+	pv := vhRange("pver", 201, 250)
+	_ = st.Store(ids[pend], vhVerSlab(ids[pend], pv))
+	failAt := vhChoose("readfault", 3) // 0: none; 1: first read fails; 2: sixth read fails
+	if failAt == 1 {
+		base.retrFail = 1
+	} else if failAt == 2 {
+		base.retrFail = 6
+	}
+	w := 2 + vhChoose("workers", 2)
+	err := st.BatchPreload(ids, w)
+	if failAt != 0 {
+		vhAssert(err != nil, "failing ledger read is reported")
+		vhAssert(vhIsExternal(err), "failing ledger read is an external error")
+	} else {
+		vhAssert(err == nil, "preload succeeds")
+		for i, id := range ids {
+			c, ok := st.cache[id]
+			if i == missing {
+				vhAssert(!ok, "absent register is not cached")
+				continue
+			}
+			vhAssert(ok && c != nil, "preloaded slab cached")
+			if ok && c != nil {
+				v, _ := vhVersionOf(c)
+				vhAssert(v == vers[i], "cached slab equals the register")
+			}
+		}
+	}
+	// the view never changes
+	base.retrFail = 0
+	for i, id := range ids {
+		slab, found, rerr := st.Retrieve(id)
+		vhAssert(rerr == nil, "retrieve after preload")
+		want := vers[i]
+		if i == pend {
+			want = pv
+		}
+		vhAssert(found == (want != 0), "view: found")
+		if found {
+			v, _ := vhVersionOf(slab)
+			vhAssert(v == want, "view: version")
+		}
+	}
+	vhAssert(len(base.log) == 0, "preload writes nothing")
+	vhReach("preload-done")
+}
